@@ -55,6 +55,21 @@ CLAIMED = {
     "C15": ("fault_enumeration", "deterministic simulation with a lost-durable-writes (store rollback) fault that makes an honest-code peer equivocate; independent per-peer multiset comparison of previous and current data",
             "If some peer's signed result multisets in previous and current data are incomparable the run must be rejected in preparation with the previous data returned; otherwise the merged data keeps for every other peer the signature that came with its larger set and that signature verifies over the merged data's multiset.",
             "Equivocation arises only when the rolled-back peer continues on a diverging input; counted in evidence (c15_equivocations_rejected)."),
+    "C11": ("exploration", "deterministic simulation: cross-peer, cross-time comparison of every canonical value handed to a service, plus first-execution content check on the designated peer",
+            "All calls anywhere in a history that take the same canon instance (canon name + enclosing iterator values) as an argument must see the same value; when a canon is first executed at its designated peer its value list must equal the stream values that peer knew, ordered by (generation, position).",
+            "Canon instances are identified through rule U (iterators passed as arguments); the content check applies to single-instance streams fed by calls only."),
+    "C13": ("exploration", "deterministic simulation of shape-restricted scripts: append phase from several peers, local canon as observation point, probing fold (optionally recursive), drained to quiescence",
+            "The local canon holds exactly the appends replayed or performed before it (no duplicate, none missing); the fold never visits a value twice or a value that is not in the stream; at quiescence of lossless histories every stream value in the folding peer's data has been visited exactly once.",
+            "Known finding F16 (recursive stream cursor skips replayed values with small generation numbers) is classified by its probe. The STREAM_MAX_SIZE boundary is not exercised."),
+    "C16": ("exploration", "deterministic simulation against an independent sequential reference evaluator R of the fragment",
+            "Every call request issued by any peer in any sampled history of a fragment script must be a call R makes, with the same peer, service, function and argument values.",
+            "R (sim/src/refmodel.rs, ~400 lines, no code shared with /repo) is trusted for the fragment; inclusion only, as the property states."),
+    "C17": ("exploration", "deterministic simulation against the reference evaluator's provenance tracking",
+            "The tetraplets of every argument of every request equal R's expectation: init peer with empty service/function for literals and built-ins; producing peer/service/function plus the exact lens text for scalars, lens paths, ap-derived values and fold iterators, wherever the value was produced and however it reached the caller.",
+            "Canon-stream arguments, .length, :error:/%last_error% are excluded (DESIGN.md C17)."),
+    "C18": ("exploration", "deterministic simulation of paired histories: the same failing instruction caught by xor (probe reads :error:) and left uncaught in a surfacing context, plus a succeeding-left variant",
+            "The (error_code, message) seen in the xor right branch equals the (ret_code, error_message) of the run in which the same failure is not caught; the right branch never runs when the left branch succeeds; failures that are uncatchable when uncaught are never caught.",
+            "Inside folds only the first iteration is compared (an uncaught failure stops the fold there)."),
 }
 
 NA = {
